@@ -5,7 +5,6 @@ CONSTANTS
   VMag = 2
   Mixed = FALSE
   Dump = TRUE
-INVARIANT ImplAgrees
 INVARIANT NoUB
 INVARIANT ImplAgreesOffHazards
 INVARIANT HazardsConfined
